@@ -266,6 +266,79 @@ func runC06(r *Run) {
 		r.Floor("R3", "eth-route decorators asserting *MsgEthereumTx", nAssert, 8)
 	}
 
+	// ---------- R3b: no way around the message scan except the tabled bypasses ----------
+	r.Rule("R3b", "PATH.scan-before-next: in every Haqq decorator of the three chains that reads tx.GetMsgs(), each call of next is preceded by GetMsgs() except over the bypass edges tabled for that decorator (recheck / not-checktx / simulate / zero-min-price / has-basefee)")
+	allowedBypass := map[string][]string{
+		"EthMempoolFeeDecorator":          {"not-checktx", "simulate", "has-basefee"},
+		"EthMinGasPriceDecorator":         {"zero-min-price"},
+		"EthValidateBasicDecorator":       {"recheck"},
+		"EthAccountVerificationDecorator": {"not-checktx"},
+		"EthGasConsumeDecorator":          {"recheck"},
+		"MinGasPriceDecorator":            {"zero-min-price", "simulate"},
+	}
+	seenDecor := map[string]bool{}
+	nScan := 0
+	for _, cn := range []string{"newEVMAnteHandler", "newCosmosAnteHandler", "newLegacyCosmosAnteHandlerEip712"} {
+		c := chains[cn]
+		if c == nil {
+			continue
+		}
+		for _, d := range c.Decors {
+			if d.Handle == nil || seenDecor[d.Rel] {
+				continue
+			}
+			seenDecor[d.Rel] = true
+			isGet := isCallMatching(func(ci CallInfo) bool { return ci.Name == "GetMsgs" })
+			reads := false
+			eachInstr(d.Handle, func(in ssa.Instruction) {
+				if isGet(in) {
+					reads = true
+				}
+			})
+			if !reads {
+				continue
+			}
+			nScan++
+			var bypass []Edge
+			for _, k := range allowedBypass[d.Name] {
+				switch k {
+				case "recheck":
+					bypass = append(bypass, boolCallEdges(d.Handle, "IsReCheckTx")...)
+				case "not-checktx":
+					_, f := guardPassEdges(d.Handle, func(cond ssa.Value) (bool, bool) {
+						cc, ok := cond.(*ssa.Call)
+						return true, ok && callInfo(cc).Name == "IsCheckTx"
+					})
+					bypass = append(bypass, f...)
+				case "simulate":
+					bypass = append(bypass, paramBoolEdges(d.Handle, "simulate")...)
+				case "zero-min-price":
+					z, _ := guardPassEdges(d.Handle, func(cond ssa.Value) (bool, bool) {
+						cc, ok := cond.(*ssa.Call)
+						return true, ok && callInfo(cc).Name == "IsZero" && backSlice(callArgs(cc)[0]).HasField("Params", "MinGasPrice")
+					})
+					bypass = append(bypass, z...)
+				case "has-basefee":
+					hb, _ := guardPassEdges(d.Handle, func(cond ssa.Value) (bool, bool) {
+						b, ok := cond.(*ssa.BinOp)
+						if !ok || (b.Op != token.NEQ && b.Op != token.EQL) || !isNilConst(b.Y) {
+							return false, false
+						}
+						if !backSlice(b.X).HasCall(func(g CallInfo) bool { return g.Name == "GetBaseFee" }) {
+							return false, false
+						}
+						return b.Op == token.NEQ, true
+					})
+					bypass = append(bypass, hb...)
+				}
+			}
+			w := PathQuery{Fn: d.Handle, Block: isGet, Target: nextCallPred(d.Handle), DelEdge: edgeSet(bypass)}.Search()
+			r.Check(w == nil, "R3b", fnID(d.Handle)+"#scan-before-next", P.Pos(fnPos(d.Handle)), fmt.Sprintf("next only after GetMsgs() (allowed bypasses: %v)", allowedBypass[d.Name]),
+				fmt.Sprintf("the decorator can hand the transaction to the next decorator without looking at its messages, over an edge that is not one of its tabled bypasses %v — its rule is not enforced on that path (e.g. only in CheckTx, which a block proposer can skip)", allowedBypass[d.Name]), P.witness(w)...)
+		}
+	}
+	r.Floor("R3b", "decorators that scan messages", nScan, 11)
+
 	// ---------- R4 ----------
 	if rj, ok := P.FnOK("(app/ante/cosmos.RejectMessagesDecorator).AnteHandle"); ok {
 		as := typeAssertsTo(rj, "x/evm/types", "MsgEthereumTx")
